@@ -201,8 +201,8 @@ def c17_2(R):
     for t in sends:
         ok = False
         for c, truth, d, *_ in controlling(b, t.bb):
-            if c.kind == "bin" and c.op in ("Eq", "Ge") and not truth:
-                if "max_segment_retransmissions" in trace(b, c.b).describe() and "sent_count" in trace(b, c.a).describe():
+            for r_, x_, y_ in implied(c, truth):
+                if r_ == "ne" and "max_segment_retransmissions" in trace(b, y_).describe() and "sent_count" in trace(b, x_).describe():
                     ok = True
         if ok:
             R.ok("synack=>below-cap", b.name)
@@ -332,10 +332,10 @@ def c17_4(R):
     for t in sends:
         ok = False
         for c, truth, d, *_ in controlling(mf, t.bb):
-            if c.kind == "bin" and c.op in ("Ne", "Eq") and c.b.kind == "const" and c.b.scalar == 1:
-                a = trace(mf, c.a)
-                if a.kind == "call" and call_matches(a.root[1], ("Sub::sub",)) and trace(mf, a.root[1].args[1]).last_field == "VirtualSocket.last_sent_seq_nr":
-                    if (c.op == "Ne" and not truth) or (c.op == "Eq" and truth):
+            for r_, x_, y_ in implied(c, truth):
+                if r_ == "eq" and y_.kind == "const" and y_.scalar == 1:
+                    a = trace(mf, x_)
+                    if a.kind == "call" and call_matches(a.root[1], ("Sub::sub",)) and trace(mf, a.root[1].args[1]).last_field == "VirtualSocket.last_sent_seq_nr":
                         ok = True
         if ok:
             R.ok("fin-sent=>follows-last-sent", mf.name, "FIN only when our_fin - last_sent_seq_nr == 1")
